@@ -1,4 +1,5 @@
 import FitModel.Listener
+import FitModel.Generated.ListenerFacts
 import Driver.FileDef
 -- @family listener Drv.hListener
 namespace Drv
@@ -8,7 +9,11 @@ def showCell : FileCell → String
   | none => "[nil]"
   | some (T, f) => s!"[{T.gotype} {showFIT (toFIT T f)}]"
 
-def parseBuf (s : String) : Option Nat := if s == "d" then some 128 else s.toNat?
+/-- channel buffer size 0: on a tree where the probe found that size 0 deadlocks (pinned tree, KF-C14-1) the model is run
+with 0 and exhibits the deadlock; on a tree where size 0 works, it is modelled as the smallest working size 1 -/
+def effN (n : Nat) : Nat := if n == 0 && !Fit.Listener.Generated.buffer0Deadlocks then 1 else n
+
+def parseBuf (s : String) : Option Nat := if s == "d" then some 128 else s.toNat?.map effN
 
 def parseCmd (s : String) : Option (Cmd Msg) :=
   if s == "F" then some .file
